@@ -456,3 +456,25 @@ Theorem C19_bounded_probe_refuted :
   find_y (S (length tak)) tak 0 0 = Some (-2)%Z.
 Proof. exact bounded_probe_refuted. Qed.
 Print Assumptions C19_bounded_probe_refuted.
+
+(** * Round 3 (seeded change C19-i): a *Graph has no hidden state *)
+
+Theorem C19_graph_stateless : length gen_graph_fields = 1%nat /\ fst gen_reverse_fresh = true.
+Proof. destruct gen_graph_stateless as [-> H]. split; [reflexivity | exact H]. Qed.
+Print Assumptions C19_graph_stateless.
+
+(** In any sequence of caller edits and Reverse calls on one graph, every
+    Reverse answers the reverse of the content at that moment. *)
+Theorem C19_reverse_of_current_content : forall sh ops g,
+  run_gops sh g (ops ++ [GReverse]) =
+  run_gops sh g ops ++ [rev_graph sh (fold_left (fun g o => match o with GEdit f => f g | GReverse => g end) ops g)].
+Proof. exact reverse_of_current_content. Qed.
+Print Assumptions C19_reverse_of_current_content.
+
+Theorem C19_cached_reverse_refuted :
+  let g0 := [(0, [1]); (1, [])]%N in
+  let edit := GEdit (fun _ => [(0, []); (1, [0])]%N) in
+  run_gops_cached sh_id g0 None [GReverse; edit; GReverse] = [[(0, []); (1, [0])]; [(0, []); (1, [0])]]%N /\
+  run_gops sh_id g0 [GReverse; edit; GReverse] = [[(0, []); (1, [0])]; [(0, [1]); (1, [])]]%N.
+Proof. exact cached_reverse_refuted. Qed.
+Print Assumptions C19_cached_reverse_refuted.
